@@ -55,7 +55,7 @@ def show_op(o):
 
 
 def nontrivial(ops, r):
-    """>= 6 operations inside the precondition, among them an attach and a detach/removal, and a state with an attached node"""
+    """>= 6 operations inside the precondition, among them an attach and a detach/removal"""
     inside = [o for o in ops if o[1] == 0]
     return (len(inside) >= 6 and any(o[0] in ATTACH for o in inside) and any(o[0] in DETACH for o in inside))
 
@@ -72,9 +72,17 @@ def run(rep, tier, seed, replay=None):
         'Model/Tree.v is a hand transcription of src/tree/taffy_tree.rs (structural methods) and of slotmap basic.rs / secondary.rs '
         '(LIFO free list, version bump, (idx, version) keys); tied to the code only by the correspondence check',
         'NodeData reduced to has_context; mark_dirty reduced to its `nodes[key]` index (all caches are empty while no layout is computed)',
-        'not modelled: u32 version wrap-around is modelled (wrap32) but C14_slot_reuse assumes it has not happened; "SlotMap is full" panic; allocation failure',
+        'u32 version wrap-around is modelled (wrap32) but C14_slot_reuse / C14_ctx_inv_preserved assume it has not happened (premise no_wrap); '
+        'not modelled: "SlotMap is full" panic (2^32 slots), allocation failure, the cache part of mark_dirty',
         'harness/src/c14.rs reference forest (used by the search only)'])
     changed = [k for k in changed if k.startswith(FP_PREFIX)]
+    rep.assumptions = [
+        'precondition of the property (Model.Tree.pre): keys live; a node is attached (add_child / insert_child_at_index / '
+        'replace_child_at_index / new_with_children) only while detached; set_children gets distinct live children; remove_child names a child; '
+        'remove_children_range gets a valid range',
+        'no layout is computed between the edits (caches empty), so mark_dirty never walks up the parent chain',
+        'slot versions do not wrap (2^31 remove/insert cycles of one slot) -- premise of the slot-reuse theorems only',
+    ]
     rep.cov['fingerprints_changed'] = changed
     rc, out, binp, dt = build_harness('release')
     if rc != 0:
